@@ -17,8 +17,8 @@ use ark_ff::{
     BigInt, BigInteger, Field, MontFp, PrimeField, Zero,
 };
 use ark_poly::{
-    univariate::{DensePolynomial, SparsePolynomial},
-    DenseUVPolynomial, Polynomial,
+    univariate::{DenseOrSparsePolynomial, DensePolynomial, SparsePolynomial},
+    DenseUVPolynomial, EvaluationDomain, Polynomial, Radix2EvaluationDomain,
 };
 use ark_test_curves::{bls12_381, ed_on_bls12_381, mnt6_753, secp256k1};
 use num_bigint::BigUint;
@@ -601,8 +601,28 @@ fn run_gt_pair(op: &str, a: &[Arg]) -> Vec<Arg> {
     ok(o)
 }
 
-// ---- polynomials over bls12_381 Fr ----
-fn pexpr<F: ark_ff::FftField>(e: u64, p: &DensePolynomial<F>, q: &DensePolynomial<F>) -> DensePolynomial<F> {
+// ---- polynomials (bls12_381 Fr, toy F_13) ----
+// Operands of a poly_rel case: see coq/C19/Run.v (layout) and coq/C19/PolyExprs.v (expression codes).
+struct PolyIn<F: ark_ff::FftField> {
+    p: DensePolynomial<F>,
+    q: DensePolynomial<F>,
+    r: DensePolynomial<F>,
+    f: F,
+    sa: SparsePolynomial<F>,
+    sb: SparsePolynomial<F>,
+    dom: Radix2EvaluationDomain<F>,
+}
+type Dos<'a, F> = DenseOrSparsePolynomial<'a, F>;
+fn qr<F: ark_ff::FftField>(a: Dos<'_, F>, b: Dos<'_, F>) -> (DensePolynomial<F>, DensePolynomial<F>) {
+    // divide_with_q_and_r panics on a zero divisor: not called (the model returns (0, 0))
+    if b.is_zero() {
+        return (DensePolynomial::zero(), DensePolynomial::zero());
+    }
+    a.divide_with_q_and_r(&b).expect("divide_with_q_and_r returned None")
+}
+fn dexpr<F: ark_ff::FftField>(e: u64, i: &PolyIn<F>) -> DensePolynomial<F> {
+    let (p, q, r, f, sa, sb) = (&i.p, &i.q, &i.r, i.f, &i.sa, &i.sb);
+    let zero = DensePolynomial::<F>::zero;
     match e {
         0 => p.clone(),
         1 => q.clone(),
@@ -612,32 +632,276 @@ fn pexpr<F: ark_ff::FftField>(e: u64, p: &DensePolynomial<F>, q: &DensePolynomia
         5 => q * p,
         6 => p - q,
         7 => -(q - p),
-        8 => p + &DensePolynomial::<F>::zero(),
+        8 => p + &zero(),
         9 => &(p + q) - q,
         10 => p - p,
-        11 => DensePolynomial::<F>::zero(),
+        11 => zero(),
         12 => p * &DensePolynomial::from_coefficients_vec(vec![F::one()]),
         13 => p + p,
         14 => p * F::from(2u64),
-        _ => panic!("harness: bad polynomial expression"),
+        15 => r.clone(),
+        16 => p + &(-q.clone()),
+        17 => {
+            let mut x = p.clone();
+            x -= q;
+            x
+        },
+        18 => {
+            let mut x = p.clone();
+            x += q;
+            x
+        },
+        19 => {
+            let mut x = p.clone();
+            x += (f, q);
+            x
+        },
+        20 => p + &(q * f),
+        21 => p.naive_mul(q),
+        22 => &(p + r) - p,
+        23 => {
+            let mut x = p + r;
+            x -= p;
+            x
+        },
+        24 => {
+            let mut x = p.clone();
+            x -= p;
+            x
+        },
+        25 => qr(Dos::from(p * q), Dos::from(q)).0,
+        26 => qr(Dos::from(p * q), Dos::from(q)).1,
+        27 => qr(Dos::from(p), Dos::from(q)).0,
+        28 => qr(Dos::from(p), Dos::from(q)).1,
+        29 => {
+            if q.is_zero() {
+                p.clone()
+            } else {
+                let (qq, rr) = qr(Dos::from(p), Dos::from(q));
+                &q.naive_mul(&qq) + &rr
+            }
+        },
+        30 => p.clone().evaluate_over_domain(i.dom).interpolate(),
+        31 => DensePolynomial::from(SparsePolynomial::from(p.clone())),
+        32 => DensePolynomial::from(sa.clone()),
+        33 => DensePolynomial::from(sa.clone() + sb.clone()),
+        34 => &DensePolynomial::from(sa.clone()) + &DensePolynomial::from(sb.clone()),
+        35 => DensePolynomial::from(Dos::from(p.clone())),
+        36 => DensePolynomial::from(Dos::from(sa)),
+        37 => p + sa,
+        38 => p - sa,
+        39 => {
+            let mut x = p.clone();
+            x += sa;
+            x
+        },
+        40 => {
+            let mut x = p.clone();
+            x -= sa;
+            x
+        },
+        41 => -p.clone(),
+        42 => &zero() - p,
+        43 => qr(Dos::from(p.naive_mul(&DensePolynomial::from(sa.clone()))), Dos::from(sa)).0,
+        44 => &(p - q) + q,
+        45 => {
+            let mut x = p + q;
+            x -= q;
+            x
+        },
+        46 => {
+            let mut x = p.clone();
+            x += (f, q);
+            x += (-f, q);
+            x
+        },
+        _ => panic!("harness: bad dense polynomial expression"),
+    }
+}
+fn sexpr<F: ark_ff::FftField>(e: u64, i: &PolyIn<F>) -> SparsePolynomial<F> {
+    let (p, q, r, f, sa, sb) = (&i.p, &i.q, &i.r, i.f, &i.sa, &i.sb);
+    let sp = |d: &DensePolynomial<F>| SparsePolynomial::from(d.clone());
+    match e {
+        100 => sa.clone(),
+        101 => sb.clone(),
+        102 => sp(p),
+        103 => sp(q),
+        104 => sp(r),
+        105 => sa.clone() + sb.clone(),
+        106 => sb + sa,
+        107 => {
+            let mut x = sa.clone();
+            x += sb;
+            x
+        },
+        108 => {
+            let mut x = sa.clone();
+            x -= sb;
+            x
+        },
+        109 => sa.clone() + (-sb.clone()),
+        110 => {
+            let mut x = sb.clone();
+            x -= sa;
+            -x
+        },
+        111 => {
+            let mut x = sa.clone();
+            x += (f, sb);
+            x
+        },
+        112 => sa + &(sb * f),
+        113 => -sa.clone(),
+        114 => sa.mul(sb),
+        115 => sb.mul(sa),
+        116 => sp(&(p - q)),
+        117 => {
+            let mut x = sp(p);
+            x -= &sp(q);
+            x
+        },
+        118 => sp(&(p + q)),
+        119 => sp(p) + sp(q),
+        120 => sp(&p.naive_mul(q)),
+        121 => sp(p).mul(&sp(q)),
+        122 => {
+            let mut x = sa.clone();
+            x -= sa;
+            x
+        },
+        123 => SparsePolynomial::zero(),
+        124 => sa.clone() + (-sa.clone()),
+        125 => {
+            let mut x = sa + sb;
+            x -= sa;
+            x
+        },
+        126 => sp(&DensePolynomial::from(sa.clone())),
+        127 => {
+            let d: Result<SparsePolynomial<F>, ()> = Dos::from(sa.clone()).try_into();
+            d.expect("try_into sparse")
+        },
+        128 => sa * f,
+        129 => sa.mul(&SparsePolynomial::from_coefficients_slice(&[(0, f)])),
+        130 => {
+            let mut x = sp(p);
+            x += (f, &sp(q));
+            x
+        },
+        131 => {
+            let mut x = p.clone();
+            x += (f, q);
+            sp(&x)
+        },
+        132 => {
+            let mut x = p.clone();
+            x -= q;
+            sp(&x)
+        },
+        133 => {
+            let mut x = sa.clone();
+            x -= sb;
+            x + sb.clone()
+        },
+        134 => {
+            let mut x = sa.clone();
+            x += (f, sb);
+            x += (-f, sb);
+            x
+        },
+        135 => {
+            let mut x = sp(p);
+            x -= &sp(p);
+            x
+        },
+        136 => {
+            let mut x = sp(p) + sp(r);
+            x -= &sp(p);
+            x
+        },
+        _ => panic!("harness: bad sparse polynomial expression"),
     }
 }
 fn run_poly<F: ark_ff::FftField + PrimeField>(a: &[Arg]) -> Vec<Arg> {
-    let cv = |l: &Arg| -> Vec<F> { l.iter().map(|v| F::from(u(v))).collect() };
+    let fe = |v: &num_bigint::BigInt| -> F { F::from(u(v)) };
+    let cv = |l: &Arg| -> Vec<F> { l.iter().map(fe).collect() };
+    let terms = |l: &Arg| -> Vec<(usize, F)> {
+        assert!(l.len() % 2 == 0, "harness: odd sparse list");
+        l.chunks(2).map(|c| (to_usize(&c[0]), fe(&c[1]))).collect()
+    };
+    // the radix-2 (coset) domain [n, h, g]; a mismatch with the case's expectation is a generator error
+    let (n, h, g) = (to_usize(&a[9][0]), fe(&a[9][1]), fe(&a[9][2]));
+    let dom = match Radix2EvaluationDomain::<F>::new(n) {
+        Some(d) if d.size() == n && d.group_gen() == g => d,
+        _ => return unsupported(),
+    };
+    let dom = if h == F::one() {
+        dom
+    } else {
+        match dom.get_coset(h) {
+            Some(d) if d.coset_offset() == h => d,
+            _ => return unsupported(),
+        }
+    };
     let p = DensePolynomial::from_coefficients_vec(cv(&a[2]));
-    let q = DensePolynomial::from_coefficients_slice(&cv(&a[3]));
-    let l = pexpr(to_u64(&a[4][0]), &p, &q);
-    let r = pexpr(to_u64(&a[4][1]), &p, &q);
-    let sl = SparsePolynomial::from(l.clone());
-    let sr = SparsePolynomial::from(r.clone());
-    ok(vec![
-        bools(&[l == r]),
-        bools(&[h64(&l) == h64(&r)]),
-        bools(&[l.is_zero(), r.is_zero()]),
-        bools(&[sl == sr]),
-        bools(&[h64(&sl) == h64(&sr)]),
-        vec![from_u64(l.degree() as u64), from_u64(r.degree() as u64)],
-    ])
+    let p2 = DensePolynomial::from_coefficients_slice(&cv(&a[2]));
+    assert!(p == p2, "harness: from_coefficients_vec / _slice differ");
+    let i = PolyIn {
+        p,
+        q: DensePolynomial::from_coefficients_slice(&cv(&a[3])),
+        r: DensePolynomial::from_coefficients_vec(cv(&a[5])),
+        f: fe(&a[6][0]),
+        sa: SparsePolynomial::from_coefficients_vec(terms(&a[7])),
+        sb: SparsePolynomial::from_coefficients_slice(&terms(&a[8])),
+        dom,
+    };
+    let (el, er) = (to_u64(&a[4][0]), to_u64(&a[4][1]));
+    let n64 = |v: usize| from_u64(v as u64);
+    if el < 100 && er < 100 {
+        let (l, r) = (dexpr(el, &i), dexpr(er, &i));
+        assert!((l != r) == !(l == r), "harness: != is not the negation of ==");
+        let z = DensePolynomial::<F>::zero();
+        let (sl, sr) = (SparsePolynomial::from(l.clone()), SparsePolynomial::from(r.clone()));
+        let (evl, evr) = (l.evaluate_over_domain_by_ref(dom), r.evaluate_over_domain_by_ref(dom));
+        ok(vec![
+            bools(&[l == r, r == l]),
+            bools(&[h64(&l) == h64(&r)]),
+            bools(&[l.is_zero(), r.is_zero(), l == z, r == z]),
+            vec![n64(l.degree()), n64(r.degree())],
+            vec![n64(l.coeffs.len()), n64(r.coeffs.len())],
+            bools(&[sl == sr, h64(&sl) == h64(&sr)]),
+            bools(&[
+                evl == evr,
+                h64(&evl) == h64(&evr),
+                evl == sl.evaluate_over_domain_by_ref(dom),
+                evr == sr.evaluate_over_domain_by_ref(dom),
+            ]),
+        ])
+    } else if el >= 100 && er >= 100 {
+        let (l, r) = (sexpr(el, &i), sexpr(er, &i));
+        assert!((l != r) == !(l == r), "harness: != is not the negation of ==");
+        let z = SparsePolynomial::<F>::zero();
+        let (evl, evr) = (l.evaluate_over_domain_by_ref(dom), r.evaluate_over_domain_by_ref(dom));
+        let out1 = vec![
+            bools(&[l == r, r == l]),
+            bools(&[h64(&l) == h64(&r)]),
+            bools(&[l.is_zero(), r.is_zero(), l == z, r == z]),
+            vec![n64(l.degree()), n64(r.degree())],
+            vec![n64(l.len()), n64(r.len())],
+        ];
+        let (dl, dr) = (DensePolynomial::from(l.clone()), DensePolynomial::from(r.clone()));
+        let mut out = out1;
+        out.push(bools(&[dl == dr, h64(&dl) == h64(&dr)]));
+        out.push(bools(&[
+            evl == evr,
+            h64(&evl) == h64(&evr),
+            evl == dl.evaluate_over_domain_by_ref(dom),
+            evr == dr.evaluate_over_domain_by_ref(dom),
+        ]));
+        ok(out)
+    } else {
+        unsupported()
+    }
 }
 
 // ---- parameters ----
@@ -762,7 +1026,7 @@ fn run(op: &str, a: &[Arg]) -> Vec<Arg> {
         },
         "poly_rel" => match (cfg, kind) {
             (1, 1) => run_poly::<bls12_381::Fr>(a),
-            (5, 1) => unsupported(),
+            (5, 1) => run_poly::<F13>(a),
             _ => unsupported(),
         },
         _ => unsupported(),
